@@ -110,15 +110,6 @@ proof fn lemma_suffix_wf(full: Seq<Label>, k: int)
 fn shim_zrs_to_rrs(zrs: &Vec<ZoneRecord>, name: &DomainName) -> (r: Vec<ResourceRecord>)
     ensures r@ == rrs_of(zrs@, *name)
 { zrs.iter().map(|zr| zr.to_rr(name)).collect() }
-// R17
-pub open spec fn values_of<K, V>(m: Map<K, V>, vs: Seq<&V>) -> bool {
-    &&& forall|k: K| m.contains_key(k) ==> exists|j: int| 0 <= j < vs.len() && *#[trigger] vs[j] == m[k]
-    &&& forall|j: int| 0 <= j < vs.len() ==> exists|k: K| m.contains_key(k) && #[trigger] m[k] == *#[trigger] vs[j]
-}
-#[verifier::external_body]
-fn shim_hashmap_values<'a, K, V>(m: &'a HashMap<K, V>) -> (r: Vec<&'a V>)
-    ensures values_of(m@, r@)
-{ m.values().collect() }
 """
 
 
